@@ -21,7 +21,7 @@ def main():
             policy = None if "--modular" in sys.argv else Policy(inline_only=True, always={'nasim.envs.host_vector.HostVector.services','nasim.envs.host_vector.HostVector.os','nasim.envs.host_vector.HostVector.processes'})
     c = REG.contracts[qual]
     tot = 0; bad = 0
-    for v in c.variants():
+    for v in (c.unbounded_variants() if concrete is None and hasattr(c, "unbounded_variants") else c.variants()):
         if only and v != only: continue
         t0 = time.time()
         obs, stats = verify_contract(repo, c, v, policy=policy, concrete=concrete, max_paths=200000)
